@@ -126,6 +126,10 @@ class Path(object):
         r = self.solver.check(*assumptions)
         dt = time.time() - t
         self.solver_seconds += dt
+        if dt > 1.0 and os.environ.get('PYVC_DUMP_SLOW'):
+            s2 = z3.Solver(); s2.add(*self.pc)
+            for a in assumptions: s2.add(a)
+            open(os.environ['PYVC_DUMP_SLOW'], 'w').write(s2.to_smt2())
         if dt > 1.0 and os.environ.get('PYVC_TRACE_SLOW'):
             import sys
             print('SLOW %.1fs %s path=%d npc=%d assumption=%s' % (
